@@ -16,8 +16,8 @@ LEAN_TARGETS = ["HugrVerif.Props.C09"]
 DRIVE_TARGETS = ["HugrVerif.Drive.Envelope"]
 RULE = (
     "stream (i) header decoder: byte strings = (magic | corrupted magic) + format byte + flags byte + tail, "
-    "decoded at every truncation 0..10 and in full; quick: 4096 random (format, flags) pairs + every known "
-    "format x boundary flags + corrupted/shifted/short magics; thorough: all 65 536 pairs x 11 truncations. "
+    "decoded at every truncation 0..10 and in full; quick: 4096 random (format, flags) pairs + the three known "
+    "formats x all 256 flags bytes + boundary pairs + corrupted/shifted/short magics; thorough: all 65 536 pairs x 11 truncations. "
     "stream (ii) packages: 0-3 modules built with hugr.build (random typed straight-line programs with "
     "constants, nested DFGs, conditionals, tail loops, calls; non-ASCII function names, string constants "
     "and node metadata) + 0-2 extensions (generated type/op defs or std ones) x formats {JSON, MODULE, "
@@ -402,6 +402,7 @@ DOC_CODES = {1: "MODULE", 2: "MODULE_WITH_EXTS", 63: "JSON"}
 DOC_NAME_CODE = {v: k for k, v in DOC_CODES.items()}
 DOC_PRINTABLE = {"JSON"}
 ZSTD_LEVELS = [None, 0, 1, 3, 19]
+ZSTD_FRAME_MAGIC = bytes.fromhex("28b52ffd")  # RFC 8878: every zstd frame starts with 0xFD2FB528 (little endian)
 
 
 def _doc_header(fmt_name: str, zstd: bool) -> bytes:
@@ -574,7 +575,7 @@ def build_module(seed: int, size: int):
         if rng.random() < 0.4:
             mod.hugr[f.parent_node].metadata["doc"] = rng.choice(STRS)
     if size and rng.random() < 0.3:
-        mod.add_const(rand_val(rng.choice(COPY)))
+        mod.add_const(rand_val(rng.choice([tys.Bool, I5, FLOAT_T, STRING_T, TUP])))
     if rng.random() < 0.4:
         mod.metadata["name"] = rng.choice(STRS)
     return mod.hugr
@@ -705,7 +706,9 @@ def _eval_pkg(spec):
             try:
                 out = enc()
                 m["enc"] = "ok"
-                m["head"] = out[:10] if mode == "bytes" else out.encode("utf-8", "surrogatepass")[:10]
+                raw = out if mode == "bytes" else out.encode("utf-8", "surrogatepass")
+                m["head"] = raw[:10]
+                m["zframe"] = raw[10:14] == ZSTD_FRAME_MAGIC
                 m["type_ok"] = isinstance(out, bytes if mode == "bytes" else str)
             except Exception as e:  # noqa: BLE001
                 m["enc"] = _cls(e)
@@ -768,7 +771,10 @@ def _boundary_hdr():
 
 
 def _enc_specs():
-    return [{"k": "enc", "fmt": f, "zstd": z} for f in PY_FORMAT_NAMES for z in (False, True)]
+    """EnvelopeHeader(fmt, zstd).to_bytes() and EnvelopeConfig(fmt, level)._make_header().to_bytes()."""
+    return [{"k": "enc", "fmt": f, "zstd": z} for f in PY_FORMAT_NAMES for z in (False, True)] + [
+        {"k": "enc", "fmt": f, "level": z} for f in PY_FORMAT_NAMES for z in [*ZSTD_LEVELS, 22, -7]
+    ]
 
 
 def _rand_pkg_spec(rng, cfgs=None):
@@ -783,7 +789,13 @@ def _rand_pkg_spec(rng, cfgs=None):
             exts.append(["std", rng.choice(STD_EXTS)])
     # no two equal extension descriptors: order swaps must be observable
     exts = [d for i, d in enumerate(exts) if d not in exts[:i]]
-    return {"k": "pkg", "mods": mods, "exts": exts, "cfgs": cfgs or _all_cfgs()}
+    if cfgs is None:
+        # every JSON configuration + the default + one configuration of each model format (these
+        # cannot be encoded without the native module; the full grid is run on the corpus packages
+        # and in the thorough tier)
+        cfgs = ["default"] + [["JSON", z] for z in ZSTD_LEVELS] + [
+            ["MODULE", rng.choice(ZSTD_LEVELS)], ["MODULE_WITH_EXTS", rng.choice(ZSTD_LEVELS)]]
+    return {"k": "pkg", "mods": mods, "exts": exts, "cfgs": cfgs}
 
 
 def corpus():
@@ -796,23 +808,43 @@ def corpus():
     return _enc_specs() + _boundary_hdr() + fixed
 
 
+def _interleave(many, few):
+    """Spread the (expensive) `few` evenly among the (cheap) `many`: core.py evaluates contiguous
+    chunks in worker processes."""
+    if not few:
+        yield from many
+        return
+    step = max(1, len(many) // len(few))
+    j = 0
+    for i, x in enumerate(many):
+        yield x
+        if i % step == step - 1 and j < len(few):
+            yield few[j]
+            j += 1
+    yield from few[j:]
+
+
 def cases(rng, tier):
+    hdr = []
     if tier == "thorough":
         for f in range(256):
             for g in range(256):
-                yield _hdr_spec(DOC_MAGIC + bytes([f, g]))
+                hdr.append(_hdr_spec(DOC_MAGIC + bytes([f, g])))
         n_pkg = 2000
     elif tier == "search":
-        yield from _enc_specs()
-        yield from _boundary_hdr()
+        hdr += _enc_specs()
+        hdr += _boundary_hdr()
         for f in range(256):
             for g in range(256):
-                yield _hdr_spec(DOC_MAGIC + bytes([f, g]), [9, 10])
+                hdr.append(_hdr_spec(DOC_MAGIC + bytes([f, g]), [9, 10]))
         n_pkg = 400
     else:
-        pairs = rng.sample(range(65536), 4096)
-        for x in pairs:
-            yield _hdr_spec(DOC_MAGIC + bytes([x >> 8, x & 0xFF]))
+        for x in rng.sample(range(65536), 4096):
+            hdr.append(_hdr_spec(DOC_MAGIC + bytes([x >> 8, x & 0xFF])))
+        # the accepted region completely: every flags byte after each known format code
+        for f in sorted(DOC_CODES):
+            for g in range(256):
+                hdr.append(_hdr_spec(DOC_MAGIC + bytes([f, g]), [9, 10]))
         n_pkg = 150
     # random byte strings with a random (mostly corrupted) magic and a tail
     for _ in range(300 if tier == "quick" else 3000):
@@ -820,9 +852,9 @@ def cases(rng, tier):
         for _ in range(rng.choice([0, 1, 1, 2, 8])):
             m[rng.randrange(8)] = rng.randrange(256)
         tail = bytes(rng.randrange(256) for _ in range(rng.choice([0, 0, 1, 5])))
-        yield _hdr_spec(bytes(m) + bytes([rng.choice([1, 2, 63, rng.randrange(256)]), rng.randrange(256)]) + tail)
-    for _ in range(n_pkg):
-        yield _rand_pkg_spec(rng)
+        hdr.append(_hdr_spec(bytes(m) + bytes([rng.choice([1, 2, 63, rng.randrange(256)]), rng.randrange(256)]) + tail))
+    pkgs = [_rand_pkg_spec(rng, _all_cfgs() if tier == "thorough" else None) for _ in range(n_pkg)]
+    yield from _interleave(hdr, pkgs)
 
 
 def exhaustive(tier):
@@ -840,6 +872,8 @@ def payload(spec):
         data = bytes.fromhex(spec["data"])
         return "env.hdr", dumps([list(data), list(spec["lens"])])
     if k == "enc":
+        if "level" in spec:
+            return "env.enc", dumps([A(spec["fmt"]), A("cfg"), A("none") if spec["level"] is None else int(spec["level"])])
         return "env.enc", dumps([A(spec["fmt"]), bool(spec["zstd"])])
     stand_in = ('{"m":%d,"e":%d}' % (len(spec["mods"]), len(spec["exts"]))).encode("ascii")
     cfgs = []
@@ -877,10 +911,8 @@ def run_impl(spec):
         data = bytes.fromhex(spec["data"])
         return dumps([_hdr_obs(data[:n]) for n in spec["lens"]])
     if k == "enc":
-        from hugr.envelope import EnvelopeFormat, EnvelopeHeader
-
         try:
-            return dumps(EnvelopeHeader(EnvelopeFormat[spec["fmt"]], spec["zstd"]).to_bytes().hex())
+            return dumps(_enc_header(spec)[1].to_bytes().hex())
         except Exception as e:  # noqa: BLE001
             return _cls(e)
     res = _eval_pkg(spec)
@@ -979,15 +1011,25 @@ def _oracle_hdr(spec):
     return fails
 
 
-def _oracle_enc(spec):
-    from hugr.envelope import EnvelopeFormat, EnvelopeHeader
+def _enc_header(spec):
+    from hugr.envelope import EnvelopeConfig, EnvelopeFormat, EnvelopeHeader
 
-    site = "EnvelopeHeader.to_bytes"
+    fmt = EnvelopeFormat[spec["fmt"]]
+    if "level" in spec:
+        return fmt, EnvelopeConfig(format=fmt, zstd=spec["level"])._make_header()
+    return fmt, EnvelopeHeader(fmt, spec["zstd"])
+
+
+def _oracle_enc(spec):
+    from hugr.envelope import EnvelopeHeader
+
+    site = "EnvelopeConfig._make_header" if "level" in spec else "EnvelopeHeader.to_bytes"
     try:
-        fmt = EnvelopeFormat[spec["fmt"]]
-        b = EnvelopeHeader(fmt, spec["zstd"]).to_bytes()
+        fmt, hd = _enc_header(spec)
+        b = hd.to_bytes()
     except Exception as e:  # noqa: BLE001
         return [Failure(site, "raises", repr(e))]
+    spec = {**spec, "zstd": spec["level"] is not None} if "level" in spec else spec
     fails = []
     if not isinstance(b, bytes) or len(b) != 10:
         return [Failure(site, "header-not-10-bytes", repr(b))]
@@ -1019,16 +1061,18 @@ def _doc_diff(want, got, plain):
     """None if `got` has the same modules/extensions in order, each the same document; else a class."""
     if got == want:
         return None
-    if isinstance(plain, tuple) and plain == got:
-        # the package codec alone (no envelope) already re-serialises differently
-        return "document-differs-already-without-envelope"
     if len(got[0]) != len(want[0]) or len(got[1]) != len(want[1]):
-        return "module-or-extension-count"
-    if sorted(map(json.dumps, got[0])) == sorted(map(json.dumps, want[0])) and sorted(
+        cls = "module-or-extension-count"
+    elif sorted(map(json.dumps, got[0])) == sorted(map(json.dumps, want[0])) and sorted(
         map(json.dumps, got[1])
     ) == sorted(map(json.dumps, want[1])):
-        return "module-or-extension-order"
-    return "document-differs"
+        cls = "module-or-extension-order"
+    else:
+        cls = "document-differs"
+    if isinstance(plain, tuple) and plain == got:
+        # Package._to_serial + deserialize alone (no header, no compression) already give this result
+        cls += "-already-without-envelope"
+    return cls
 
 
 def _oracle_pkg(spec):
@@ -1042,9 +1086,34 @@ def _oracle_pkg(spec):
         if "bad_cfg" in r:
             continue
         c = r["cfg"]
-        fmt, z = ("JSON", None) if c == "default" else (c[0], c[1])
+        tag = "default" if c == "default" else f"{c[0]}/zstd={c[1]}"
+        if c == "default":
+            # which configuration is the default is not part of the property: judge each result by
+            # the header it carries (must be a documented header; text only for printable formats)
+            for mode, site in (("bytes", "Package.to_bytes"), ("str", "Package.to_str")):
+                m = r[mode]
+                if m["enc"] != "ok":
+                    fails.append(Failure(site, "default-config-cannot-be-encoded", m["enc_exc"]))
+                    continue
+                h = m["head"]
+                if len(h) != 10 or h[:8] != DOC_MAGIC or h[8] not in DOC_CODES or h[9] & 0xFE != 0x40:
+                    fails.append(Failure(site, "first-ten-bytes", f"default: {h!r} is not a documented header"))
+                    continue
+                if bool(h[9] & 1) != m["zframe"]:
+                    fails.append(Failure(site, "flags-bit0-does-not-tell-compression", f"default: {h!r}"))
+                if mode == "str" and DOC_CODES[h[8]] not in DOC_PRINTABLE:
+                    fails.append(Failure(site, "text-offered-for-non-printable-format", f"default: {h!r}"))
+                if DOC_CODES[h[8]] == "JSON":
+                    dsite = site.replace("to_", "from_")
+                    if m["dec"] != "ok":
+                        fails.append(Failure(dsite, "encoded-envelope-not-decodable", f"default: {m['dec_exc']}"))
+                    else:
+                        d = _doc_diff(want, m["got"], res["plain"])
+                        if d:
+                            fails.append(Failure(dsite, d, tag))
+            continue
+        fmt, z = c[0], c[1]
         hdr = _doc_header(fmt, z is not None)
-        tag = "default" if c == "default" else f"{fmt}/zstd={z}"
         # ---- bytes
         m = r["bytes"]
         if m["enc"] != "ok":
@@ -1056,6 +1125,8 @@ def _oracle_pkg(spec):
                 fails.append(Failure("Package.to_bytes", "result-not-bytes", tag))
             if m["head"] != hdr:
                 fails.append(Failure("Package.to_bytes", "first-ten-bytes", f"{tag}: {m['head']!r} expected {hdr!r}"))
+            if m["zframe"] != (z is not None):
+                fails.append(Failure("Package.to_bytes", "payload-compression-does-not-match-config", tag))
             if fmt == "JSON":
                 if m["dec"] != "ok":
                     fails.append(Failure("Package.from_bytes", "encoded-envelope-not-decodable", f"{tag}: {m['dec_exc']}"))
@@ -1125,18 +1196,18 @@ def stats(spec, obs, counters):
     elif k == "pkg":
         counters[f"pkg.modules={len(spec['mods'])}"] += 1
         counters[f"pkg.extensions={len(spec['exts'])}"] += 1
-        res = _eval_pkg(spec)
-        if res["build"] is not None:
+        if obs.startswith("!"):
             counters["pkg.build-failed"] += 1
             return
-        for r in res["cfgs"]:
-            if "bad_cfg" in r:
+        from sexp import loads
+
+        for c, entry in zip(spec["cfgs"], loads(obs)):
+            if not isinstance(entry, list):
                 continue
-            c = r["cfg"]
             fmt = "JSON" if c == "default" else c[0]
             z = None if c == "default" else c[1]
-            counters[f"cfg.{fmt}.bytes.{r['bytes']['enc']}"] += 1
-            counters[f"cfg.{fmt}.str.{'zstd' if z is not None else 'plain'}.{r['str']['enc']}"] += 1
+            counters[f"cfg.{fmt}.bytes.{entry[0][1]}"] += 1
+            counters[f"cfg.{fmt}.str.{'zstd' if z is not None else 'plain'}.{entry[1][1]}"] += 1
             if fmt != "JSON":
                 counters["model.not-predicted(bytes,native-encoder)"] += 1
             elif z is not None:
